@@ -202,11 +202,39 @@ func vh_candidate_timeout() {
 	r.candidateFromLeadershipTransfer.Store(transfer)
 	env.trans.onVote = func(id ServerID, a *RequestVoteRequest, resp *RequestVoteResponse) error { return errInjected }
 	env.trans.onPreVote = func(id ServerID, a *RequestPreVoteRequest, resp *RequestPreVoteResponse) error { return errInjected }
+	// one client operation is queued meanwhile (each queue in turn): a candidate refuses it
+	af := vArbFuture("f")
+	vf := &verifyFuture{}
+	vf.init()
+	which := vChoose("queue", 0, 2)
+	switch which {
+	case 1:
+		r.applyCh <- af
+	case 2:
+		r.verifyCh <- vf
+	}
 	pre := vSnap(r, env)
 	vSpawnPolicy(true)
 	vTimerMode(1) // the election timer fires
 	vRunUntilBlocked(r.runCandidate)
 	post := vSnap(r, env)
+	if which == 1 {
+		if done, err := vFutureErr(&af.deferError); done {
+			vCover("timeout.apply-refused")
+			vAssert(err == ErrNotLeader && af.log.Index == 0, "C17.candidate.apply-refused-not-leader")
+			vAssert(err == ErrNotLeader && af.log.Index == 0, "C08.candidate.refused-apply-never-stored")
+		} else {
+			vAssert(len(r.applyCh) == 1, "C17.candidate.apply-still-queued")
+		}
+	}
+	if which == 2 {
+		if done, err := vFutureErr(&vf.deferError); done {
+			vAssert(err == ErrNotLeader, "C17.candidate.verify-refused-not-leader")
+			vAssert(err == ErrNotLeader, "C09.candidate.verify-never-succeeds-on-candidate")
+		} else {
+			vAssert(len(r.verifyCh) == 1, "C17.candidate.verify-still-queued")
+		}
+	}
 	vAssert(!r.candidateFromLeadershipTransfer.Load(), "C14.timeout.transfer-privilege-reset-on-every-exit")
 	if !r.preVoteDisabled && !transfer {
 		vCover("timeout.prevote-round")
